@@ -7,9 +7,11 @@ Every grammar production occurs in every context in which the documentation allo
   start values 0 / 1 / none, hermitian / antihermitian markers (before and after other clauses), products declared hermitian or not,
   integer division (positive, negative), unary minus, subtraction chains, `zero`, flag expressions,
   terms used exactly once (deleted after use) directly and through .adj.
-Left out on purpose (known finding F-DSL, DESIGN.md 10.5): a scope function nested under `diagonal`; `start = "<series>"` of a computed series;
+Left out on purpose (known finding F-DSL, DESIGN.md 10.5): `start = "<series>"` of a computed series;
 a once-used series WITH a start value consumed by a series that is evaluated at zeroth order (start = 1 or no start): its start value is deleted;
 an `if lower:` clause followed by further clauses (the compiler returns after it, the documentation says clauses are summed).
+Three members of that family were repaired in /repo after this corpus exposed them (marker position, nested calls incl. calls under `diagonal`, chained divisions)
+and are now part of the corpus.
 """
 
 
@@ -148,3 +150,137 @@ def no_start():
             "A".adj
 
     return "Z"
+
+
+def triple_product():
+    with "P":
+        start = 0
+        "A" + "P @ A @ P" / 2 - "A @ P".adj
+
+    with "P @ A @ P":
+        pass
+
+    with "A @ P":
+        pass
+
+    return "P"
+
+
+def hermitian_triple_product():
+    with "Q":
+        start = 0
+        hermitian
+        "A" + "A".adj - "Q @ G @ Q" / 4
+
+    with "G":
+        start = 0
+        hermitian
+        "A".adj + "A"
+
+    with "Q @ G @ Q":
+        hermitian
+
+    return "Q", "G"
+
+
+def nested_calls_and_divisions():
+    with "N":
+        start = 0
+        f(g("A")) / 2 / -3 - -"N2"
+        if offdiagonal:
+            g(f("A") - "A".adj / 5)
+
+    with "N2":
+        start = 0
+        -(-"A") + ("A" - "A".adj) / 7
+
+    return "N"
+
+
+def all_conditions():
+    with "K":
+        start = 0
+        "A"
+        if diagonal:
+            "K1" - "A".adj
+        if offdiagonal:
+            "K1".adj + "K2"
+        if lower:
+            "K3".adj
+
+    with "K1":
+        start = 0
+        "A" / 2
+
+    with "K2":
+        start = 0
+        "A".adj / 3
+
+    with "K3":
+        start = 0
+        "A" / 5
+
+    return "K"
+
+
+def consumer_with_identity_start():
+    with "E":
+        start = 1
+        "A" - "E2".adj
+        if diagonal:
+            "E2 @ E2" / 2
+
+    with "E2":
+        "A".adj + "A"
+
+    with "E2 @ E2":
+        pass
+
+    return "E"
+
+
+def nested_sums():
+    with "R":
+        start = 0
+        -("A" - "R1") - ("A".adj - ("R2" - "A")) / 2
+        if diagonal:
+            -(-("R1" + "R1".adj)) / 4 - zero
+
+    with "R1":
+        start = 0
+        "A" + "A"
+
+    with "R2":
+        start = 0
+        ("A" + "A".adj) / -2 - "A"
+
+    return "R"
+
+
+def calls_inside_sums():
+    with "T":
+        start = 0
+        -f("A") - (g("A".adj) - f("T1" - "A")) / 3
+        if offdiagonal:
+            f(g(f("A")))
+
+    with "T1":
+        start = 0
+        g("A") / 2
+
+    return "T"
+
+
+def call_under_diagonal():
+    with "D":
+        start = 0
+        if diagonal:
+            "A" + f("D1") - g("A" - "D1".adj)
+        if offdiagonal:
+            f("A") / 2
+
+    with "D1":
+        start = 0
+        "A" / 2
+
+    return "D"
